@@ -1276,6 +1276,7 @@ static void run_line(char *line)
 
 		NEEDCTX(1);
 		op_begin();
+		APPLY_ERRNO();
 		rc = cfg_rmsec(CTX(1), p);
 		snprintf(rbuf, sizeof rbuf, "R %d\n", rc);
 		op_end_r(rbuf, NULL);
@@ -1287,6 +1288,7 @@ static void run_line(char *line)
 
 		NEEDCTX(1);
 		op_begin();
+		APPLY_ERRNO();	/* a lookup does not care what errno an earlier call has left behind */
 		o = cfg_getopt(CTX(1), p);
 		if (o && find_opt(CTX(1), o, path, sizeof path))
 			snprintf(rbuf, sizeof rbuf, "P %s\n", path);
@@ -1301,6 +1303,7 @@ static void run_line(char *line)
 
 		NEEDCTX(1);
 		op_begin();
+		APPLY_ERRNO();
 		s = cfg_getsec(CTX(1), p);
 		if (s && find_sec(CTX(1), s, path, sizeof path))
 			snprintf(rbuf, sizeof rbuf, "P %s\n", path);
